@@ -1370,6 +1370,7 @@ namespace bloch::runtime {
                     throw;
                 }
                 endFrame();
+                rejectQubitCopy(init, field.line, field.column);
                 slot = stampStatic(widenToSlot(init, field.type.kind), field.type.className);
             }
             m_inStaticContext = prevStatic;
@@ -1617,8 +1618,12 @@ namespace bloch::runtime {
                 thisVal.objectValue = obj;
                 thisVal.className = cls->name;
                 m_env.back()["this"] = {thisVal, false, true};
-                Value init = stampStatic(widenToSlot(eval(field.initializer), field.type.kind),
-                                         field.type.className);
+                Value raw = eval(field.initializer);
+                if (raw.type == Value::Type::Qubit || raw.type == Value::Type::QubitArray) {
+                    endFrame();
+                    rejectQubitCopy(raw, field.line, field.column);
+                }
+                Value init = stampStatic(widenToSlot(raw, field.type.kind), field.type.className);
                 slot = init;
                 endFrame();
                 m_currentClassCtx = prevClass;
